@@ -260,7 +260,7 @@ class OperatorProgram:
             body = rec['view'] or {}
             # The result is scripted by the object itself: spec.idx[<handler id>] or spec.idx['*'].
             plan = (body.get('spec') or {}).get('idx') or {}
-            step = plan.get(h['id'], plan.get('*', {'r': 'dict'}))
+            step = h['fixed'] if h.get('fixed') else plan.get(h['id'], plan.get('*', {'r': 'dict'}))
             rec['step'] = step
             try:
                 if step.get('slow'):
@@ -268,6 +268,8 @@ class OperatorProgram:
                 r = step.get('r', 'dict')
                 rec['outcome'] = r
                 if r == 'dict':
+                    if step.get('kv') is not None:
+                        return dict(step['kv'])
                     return {step.get('k', 'k'): step.get('v', rec['name'])}
                 if r == 'scalar':
                     return step.get('v', rec['name'])
@@ -280,6 +282,9 @@ class OperatorProgram:
                 if r == 'err':
                     raise ScriptedError('idx-err')
                 raise ValueError(r)
+            except asyncio.CancelledError:
+                rec['outcome'] = 'cancelled'
+                raise
             finally:
                 rec['t1'] = prog._now()
                 rec['seq1'] = prog.sim.world.tick()
